@@ -6,10 +6,10 @@
     pack <hex|->                           → ok c=.. r=..                       (pack: committed replaced)
     tail <hex|->                           → ok c=.. r=..                       (transaction in progress)
     qd <now>                               → 1 | 0                              (QuickDetectable)
-    backup <now> <flags FQzk|->            → full <name> <len> <fnv> | incr … | noop | err:<E>
+    backup <now> <flags FQzk|->            → full <name> <len> <adler32> | incr … | noop | err:<E>
     ls                                     → files=… dats=… idxs=…
     recover <le:n|lt:n> <w 0|1> <o|s> <pre 0|1>
-                                           → ok <len> <fnv> file=… part=… idx=… | err:<E> …
+                                           → ok <len> <adler32> file=… part=… idx=… | err:<E> …
     verify <q 0|1> <now>                   → ok | err:<E>
     save / restore                         → ok                                 (around a damage)
     dmg del <name> | dmg set <name> <hex|-> | dmg trunc <name> <n> | dmg flip <name> <off> <xor> | dmg deldat <date> | dmg delidx <date>  → ok
@@ -38,8 +38,12 @@ def hexBytes (s : String) : Option Bytes :=
       | _, _ => none
   go s.toList #[]
 
+/-- Adler-32 of the bytes (what `zlib.adler32` computes); only used to print observations -/
 def fnv64 (b : Bytes) : Nat :=
-  (b.foldl (fun (h : UInt64) x => (h ^^^ x.toUInt64) * 1099511628211) 14695981039346656037).toNat
+  let r := b.foldl (fun (p : Nat × Nat) x =>
+    let a := (p.1 + x) % 65521
+    (a, (p.2 + a) % 65521)) (1, 0)
+  r.2 * 65536 + r.1
 
 def extStr (n : Name) : String :=
   (if n.full then "fs" else "deltafs") ++ (if n.gz then "z" else "")
